@@ -260,4 +260,44 @@ def floatSecsAt (d s : Int) : Bool :=
 def fixedOK (cap ta nb na : Int) : Bool :=
   decide (nb * ns ≤ ta) && (decide (na ≤ nb) || decide (na * ns ≤ ta + cap))
 
+/-! ### overlapping requests (several sessions of one user served at the same time) -/
+
+/-- one request in flight: which certificate kind it asks for, its `duration` field, the moment its
+own session was authenticated, its own clock readings (`time.Until` in the handler, `time.Now()` in
+the generator) and the bracket the caller measured around it -/
+structure Flight where
+  ssh : Bool
+  req : Req
+  iat : Int
+  tb : Int
+  t1 : Int
+  t2 : Int
+  ta : Int
+deriving DecidableEq, Repr
+
+/-- what one request is answered with: `duration` is a local of the handler invocation, computed
+from this request's form and this request's `authInfo`, and handed to the generator by the same
+invocation -/
+def answer (sh : Shape) (L : Int) (fsec : Int → Int) (f : Flight) : Option (Int × Int) :=
+  if f.ssh then sshIssue sh L fsec f.req f.t1 f.t2 f.iat else x509Issue sh L f.req f.t1 f.t2 f.iat
+
+/-- requests that overlap in time (listed in the order they reach the signer): every invocation
+answers from its own locals, so the schedule is no input -/
+def serveEach (sh : Shape) (L : Int) (fsec : Int → Int) (fs : List Flight) : List (Option (Int × Int)) :=
+  fs.map (answer sh L fsec)
+
+/-- the property's predicate for the answer to one flight -/
+def flightOK (f : Flight) (w : Int × Int) : Bool :=
+  if f.ssh then sshOK f.req f.iat f.tb f.ta w.1 w.2 else windowOK f.req f.iat f.tb f.ta w.1 w.2
+
+/-- what a coalescer keyed by *what is asked* (kind and `duration` text, not who asks) would hand a
+follower that arrives while the leader is being signed (not what the source does; kept for the
+counterexample) -/
+def coalescedAnswer (sh : Shape) (L : Int) (fsec : Int → Int) (leader f : Flight) : Option (Int × Int) :=
+  if f.ssh = leader.ssh ∧ f.req = leader.req then answer sh L fsec leader else answer sh L fsec f
+
+def serveCoalesced (sh : Shape) (L : Int) (fsec : Int → Int) : List Flight → List (Option (Int × Int))
+  | [] => []
+  | leader :: rest => answer sh L fsec leader :: rest.map (coalescedAnswer sh L fsec leader)
+
 end KM.Validity
